@@ -3151,7 +3151,11 @@ impl Translator {
                 StmtKind::Let(_, _, expr) => {
                     self.collect_captures_expr(expr, locals, mono);
                 }
-                StmtKind::Assign(_, _, expr) => {
+                StmtKind::Assign(lhs, _, expr) => {
+                    // the object and index of a field/index target are only read
+                    if let ExprKind::MemberAccess(..) | ExprKind::IndexAccess(..) = &*lhs.kind {
+                        self.collect_captures_expr(lhs, locals, mono);
+                    }
                     self.collect_captures_expr(expr, locals, mono);
                 }
                 StmtKind::Continue | StmtKind::Break => {}
